@@ -143,7 +143,8 @@ func Run(c *Case) (failure string, labels map[string]int, nontrivial bool) {
 	}()
 	fail := func(f string, a ...interface{}) { panic(failText(fmt.Sprintf(f, a...))) }
 
-	base := context.WithValue(context.Background(), userKey{}, "user-value")
+	// the caller's context carries a value of its own and, like every user of GCPMultiEndpoint, a MultiEndpoint name
+	base := grpcgcp.NewMEContext(context.WithValue(context.Background(), userKey{}, "user-value"), "user-me")
 	var ctx context.Context
 	var cancel context.CancelFunc
 	if c.Deadline > 0 {
@@ -164,17 +165,32 @@ func Run(c *Case) (failure string, labels map[string]int, nontrivial bool) {
 	var fake *fakeStream
 	var createErrs []error
 	var creating bool
+	// a failure seen inside the streamer is recorded and reported when the SendMsg that called it returns: a panic here
+	// would unwind through the library while it holds the stream's lock and leave the other calls of the case stuck
+	streamerFailure := ""
 	streamer := func(sctx context.Context, d *grpc.StreamDesc, cc *grpc.ClientConn, method string, o ...grpc.CallOption) (grpc.ClientStream, error) {
 		creations++
+		fail := func(f string, a ...interface{}) {
+			if streamerFailure == "" {
+				streamerFailure = fmt.Sprintf(f, a...)
+			}
+		}
 		if d != desc || cc != nil || method != "/svc/Method" || len(o) != len(opts) {
 			fail("streamer called with different arguments: desc=%p method=%q opts=%d", d, method, len(o))
+			return nil, errors.New("harness: " + streamerFailure)
 		}
 		if sctx.Value(userKey{}) != "user-value" {
 			fail("the stream-creating context lost the caller's context values")
+			return nil, errors.New("harness: " + streamerFailure)
+		}
+		if me, ok := grpcgcp.FromMEContext(sctx); !ok || me != "user-me" {
+			fail("the stream-creating context lost the MultiEndpoint name the caller had put into the context (FromMEContext = %q, %v)", me, ok)
+			return nil, errors.New("harness: " + streamerFailure)
 		}
 		req, _, ok := grpcgcp.VerifCtxMsgs(sctx)
 		if !ok {
 			fail("the stream-creating context does not carry the picker information")
+			return nil, errors.New("harness: " + streamerFailure)
 		}
 		lastCreateReq = req
 		out := 0
@@ -258,6 +274,9 @@ func Run(c *Case) (failure string, labels map[string]int, nontrivial bool) {
 	// handle a completed call
 	complete := func(w *worker, r result) {
 		w.busy = false
+		if streamerFailure != "" {
+			fail("%s", streamerFailure)
+		}
 		if r.fail != "" {
 			fail("%s", r.fail)
 		}
@@ -324,6 +343,10 @@ func Run(c *Case) (failure string, labels map[string]int, nontrivial bool) {
 				}
 			} else if cx, ok := r.val.(context.Context); ok && cx != nil && cx.Value(userKey{}) != "user-value" {
 				fail("Context before stream creation lost the caller's values")
+			} else if ok && cx != nil {
+				if me, ok := grpcgcp.FromMEContext(cx); !ok || me != "user-me" {
+					fail("Context before stream creation lost the MultiEndpoint name of the caller's context")
+				}
 			}
 		}
 	}
